@@ -35,7 +35,82 @@ def _expr_sources(ff, e):
     return params, attrs, ops
 
 
+def _unmasked(chk):
+    """GUARD.features.unmasked - transform data whose missing features differ from the training data is refused.  The
+    comparison is made by the sanitizer stage; every stage the data passes BEFORE it must leave the data's own NaN
+    pattern alone.  A stage that combines the data with a fitted statistic which is itself NaN at the features that were
+    missing in training (a plain mean / std / var ... of the fit data over the samples, not filled afterwards) imposes the
+    training mask on the new data: values present at such a feature are turned into NaN and the sanitizer finds
+    'the same' missing features."""
+    pm = chk.pm
+    prep = pm.cls("xeofs.preprocessing.preprocessor.Preprocessor")
+    tt = prep.resolve("transformer_types")
+    chk.require(tt is not None, "Preprocessor.transformer_types vanished")
+    table: list[tuple[str, str]] = []
+    for n in walk_no_nested(tt.node):
+        if isinstance(n, ast.Return) and isinstance(n.value, ast.Call) and isinstance(n.value.func, ast.Name) and n.value.func.id == "dict":
+            table = [(kw.arg, norm(kw.value)) for kw in n.value.keywords if kw.arg]
+        elif isinstance(n, ast.Return) and isinstance(n.value, ast.Dict):
+            table = [(const_str(k), norm(v)) for k, v in zip(n.value.keys, n.value.values)]
+    names = [t[0] for t in table]
+    chk.require("sanitizer" in names, "transformer_types() no longer lists the sanitizer stage")
+    REDUCE = {"mean", "std", "var", "sum", "median", "min", "max", "prod"}
+    FILL = {"fillna", "where", "nan_to_num", "notnull", "isnull"}
+    n_obl = 0
+    for sname, cname in table[: names.index("sanitizer")]:
+        obj = pm.resolve_name(tt.cls.module if tt.cls is not None else prep.module, cname)
+        cls = obj[1] if obj is not None and obj[0] == "class" else None
+        chk.require(cls is not None, f"stage class {cname} of the preprocessor table not found")
+        tr = cls.resolve("transform")
+        fit = cls.resolve("fit")
+        if tr is None or fit is None:
+            continue
+        tf, ff = FuncFacts.of(tr), FuncFacts.of(fit)
+        data = [p for p in tr.params if p != "self"][0]
+        fdata = [p for p in fit.params if p != "self"][0]
+        combos = []
+        for b in [x for x in walk_no_nested(tr.node) if isinstance(x, ast.BinOp)]:
+            for side, other in ((b.left, b.right), (b.right, b.left)):
+                if not is_self_attr(other):
+                    continue
+                if not any(p.atom.kind == "param" and p.atom.name == data for p in tf.paths(side, spine_only=True)):
+                    continue
+                combos.append((b, other.attr))
+        from ..opaque import opaque_sites
+        dyn = opaque_sites(tr)
+        if dyn:
+            # the attributes combined with the data are computed names (getattr over a table): every statistic fit
+            # derives from the data by a reduction may be among them
+            for stt in ff.statements():
+                tg = stt.targets[0] if isinstance(stt, ast.Assign) and len(stt.targets) == 1 else stt.target if isinstance(stt, ast.AnnAssign) and stt.value is not None else None
+                if tg is not None and is_self_attr(tg) and any(o.kind == "method" and o.name in REDUCE for p in ff.paths(stt.value, spine_only=True)
+                                                                if p.atom.kind == "param" and p.atom.name == fdata for o in p.ops):
+                    if not any(a == tg.attr for _, a in combos):
+                        combos.append((dyn[0][0], tg.attr))
+        for b, attr in combos:
+            if True:
+                # how fit computes the statistic
+                for st in ff.statements():
+                    tgt = st.targets[0] if isinstance(st, ast.Assign) and len(st.targets) == 1 else st.target if isinstance(st, ast.AnnAssign) and st.value is not None else None
+                    if tgt is None or not is_self_attr(tgt, attr):
+                        continue
+                    for p in ff.paths(st.value, spine_only=True):
+                        if not (p.atom.kind == "param" and p.atom.name == fdata):
+                            continue
+                        red = [i for i, o in enumerate(p.ops) if o.kind == "method" and o.name in REDUCE]
+                        if not red:
+                            continue
+                        n_obl += 1
+                        filled = any(o.kind == "method" and o.name in FILL for o in p.ops[red[0] + 1:])
+                        chk.check(filled, "GUARD.features.unmasked", tr, b, construct=f"{cls.name}.transform: `{norm(b)}` keeps the data's own missing features",
+                                  why=f"{cls.name}.transform combines the data with self.{attr} = {norm(st.value)[:60]}, which is NaN at every feature that was missing throughout the "
+                                      f"training data: values that new data carry at such a feature are masked BEFORE the sanitizer compares the missing features, so transform data "
+                                      f"whose missing features differ from the training data is accepted")
+    chk.require(n_obl >= 1, "GUARD.features.unmasked: no stage before the sanitizer combines the data with a fitted statistic (anchor vanished)")
+
+
 def check(chk):
+    _unmasked(chk)
     # the per-item sample deletions of a list input are reconciled by LABEL when the items are concatenated (shared with C02's concatenator rule)
     from . import c02 as _c02
     from .c01 import _Relabel as _RL
